@@ -68,6 +68,8 @@ pub fn cases_c14(tier: &str, seed: u64) -> Vec<Case> {
                         Inject::MpcMsg { comp: 0, party, from: n + 1 },
                         Inject::MpcMsg { comp: 0, party, from: usize::MAX },
                         Inject::Consts { comp: 0, party, from: n },
+                        Inject::ConstsWrong { comp: 0, party, from: (party + 1) % n },
+                        Inject::ConstsWrong { comp: 0, party, from: (party + n - 1) % n },
                         Inject::ConstsNonEmpty { comp: 0, party, from: n + 2 },
                         Inject::ConstsNonEmpty { comp: 0, party, from: usize::MAX },
                     ];
@@ -111,6 +113,7 @@ fn inj_name(i: &Inject) -> String {
         Inject::DupSchedule { .. } => "dup-schedule".into(),
         Inject::Run { .. } => "run".into(),
         Inject::Consts { from, .. } => format!("consts(from={})", if *from == usize::MAX { "usize::MAX".to_string() } else { from.to_string() }),
+        Inject::ConstsWrong { .. } => "consts-wrong".into(),
         Inject::ConstsNonEmpty { from, .. } => format!("consts-nonempty(from={})", if *from == usize::MAX { "usize::MAX".to_string() } else { from.to_string() }),
         Inject::Validate { .. } => "validate".into(),
         Inject::ValidateAlt { .. } => "validate-alt".into(),
@@ -158,7 +161,7 @@ fn judge_c14(c: &Case, rec: &RunRecord) -> Vec<(String, Value)> {
         } else if inj.what.starts_with("consts") && inj.what.contains("from=") {
             // out-of-range party index
             true
-        } else if inj.what == "run" || inj.what == "consts" {
+        } else if inj.what == "run" || inj.what == "consts" || inj.what == "consts-wrong" {
             // certainly too late: the party has already sent MPC messages (state Executing or later)
             let executing = rec.rpcs.iter().any(|r| r.kind == RpcKind::Msg && r.from == p && r.fate != "unused" && r.t_issue < inj.t_call);
             if executing { true } else if p == leader { !scheduled_before } else { !validate_released_before }
